@@ -174,6 +174,34 @@ def eval_expr(I, st, env, e, frame):
                 out.extend(binop(I, s2, vs[0], e.op, vs[1], frame, e))
         return out
     if isinstance(e, ast.IfExp):
+        merge = getattr(I, 'merge_ifs', True)
+        base = st.clone() if merge else st
+        out = []
+        for (s2, b) in I.truth(base, env, e.test, frame):
+            if isinstance(b, Raised):
+                out.append((s2, b))
+            else:
+                out.extend(I.eval(s2, env, e.body if b else e.orelse, frame))
+        if not merge:
+            return out
+        # a conditional expression whose branches are plain data and have no effects: one lazily decided value instead of
+        # one path per branch (same idea as the merging of if statements)
+        from .merge import is_data, dom_delta
+        if len(out) >= 2 and all(not isinstance(v, Raised) and is_data(v) and len(s2.trace) == len(st.trace) and
+                                 s2.heap == st.heap and s2.seqs == st.seqs and s2.maps == st.maps and s2.flags == st.flags
+                                 for (s2, v) in out):
+            alts = []
+            for (s2, v) in out:
+                delta = {k: d for k, d in dom_delta(st, s2).items() if k[0] != 'sgn'}
+                if any(k[0] == 'sgn' for k in dom_delta(st, s2)):
+                    alts = None
+                    break
+                alts.append((delta, v))
+            if alts is not None:
+                return [(st, Choice(alts))]
+        if len(out) == 1 and not merge:
+            return out
+        # not mergeable: redo on the real state (the probe ran on a clone)
         out = []
         for (s2, b) in I.truth(st, env, e.test, frame):
             if isinstance(b, Raised):
@@ -395,6 +423,26 @@ def getattr_value(I, st, o, attr, frame, node=None):
         if key not in st.heap:
             if attr == '__class__':
                 return [(st, ClassRef(cls))]
+            if attr == '__dict__' and cls in I.m.classes:
+                # a snapshot of the instance attributes: every field of the class known to the field table or present on
+                # the object, in a stable order
+                names = []
+                for c in I.m.mro(cls):
+                    for (c2, a) in I.fieldspec:
+                        if c2 == c and a not in names and not str(a).startswith('@'):
+                            names.append(a)
+                for (oid2, a) in list(st.heap):
+                    if oid2 == o.oid and a not in names and not str(a).startswith('@'):
+                        names.append(a)
+                items = []
+                for a in names:
+                    if (o.oid, a) not in st.heap:
+                        st.heap[(o.oid, a)] = I.materialise(st, o, cls, a)
+                    items.append(('kv', Str(a), st.heap[(o.oid, a)]))
+                doid = st.new_oid('dict', '__dict__(%s)' % o.oid)
+                st.maps[doid] = tuple(items)
+                st.flags.add(('fresh', doid))
+                return [(st, Obj(doid))]
             if attr == '__dict__':
                 return [(st, Opaque('__dict__(%s)' % o.oid))]
             st.heap[key] = I.materialise(st, o, cls, attr)
@@ -753,6 +801,8 @@ def binop(I, st, a, op, b, frame, node):
     if isinstance(op, ast.Mod) and isinstance(a, strs):
         # %-formatting
         args = list(b.elems) if isinstance(b, TupleV) else [b]
+        from .externals import note_text_conversion
+        note_text_conversion(I, st, args, frame)
         if isinstance(a, Str):
             return [(st, percent_format(a.s, args))]
         return [(st, SStr('fmt%%(%s)' % (vkey(a),), deps_of(a) | set().union(*[deps_of(x) for x in args]) if args else deps_of(a)))]
